@@ -30,11 +30,14 @@ type scen struct {
 	Unaccepted int `json:"unaccepted"`
 	// Overflow: the listener's backlog is 1 and two more remotes than it holds send their first datagram before anybody
 	// accepts: the excess is refused and must leave nothing behind that keeps the socket open later
-	Overflow   bool     `json:"overflow,omitempty"`
-	LClose     int      `json:"listener_close"` // 0 none, 1 once, 2 twice
-	CClose     []int    `json:"conn_close"`     // per accepted conn: 0 none, 1 once, 2 twice (two tasks)
-	PendAccept bool     `json:"pending_accept"`
-	PendRead   []bool   `json:"pending_read"`
+	Overflow   bool   `json:"overflow,omitempty"`
+	LClose     int    `json:"listener_close"` // 0 none, 1 once, 2 twice
+	CClose     []int  `json:"conn_close"`     // per accepted conn: 0 none, 1 once, 2 twice (two tasks)
+	PendAccept bool   `json:"pending_accept"`
+	PendRead   []bool `json:"pending_read"`
+	// TwoReaders: connections with a pending Read get a second goroutine blocked in Read as well (Close unblocks ALL
+	// pending reads)
+	TwoReaders bool     `json:"two_readers,omitempty"`
 	Late       string   `json:"late,omitempty"` // "", "new" (from an unknown remote), "known" (from accepted conn 0's remote)
 	Batch      bool     `json:"batch"`
 	PendWrite  int      `json:"pending_write,omitempty"` // batch only: a write still sitting in the unflushed batch at Close; 1 = small, 2 = larger than a datagram can be (its flush fails)
@@ -272,11 +275,20 @@ func runOne(sc *scen, st sched.Strategy, settle bool, hit map[int]bool) (rs resu
 			continue
 		}
 		i := i
-		s.Go(fmt.Sprintf("R%d", i), guard("Read", func() {
-			buf := make([]byte, 64)
-			conns[i].Read(buf)
-			atomic.StoreInt32(&readRet[i], 1)
-		}))
+		nrd := 1
+		if sc.TwoReaders {
+			nrd = 2
+		}
+		var left int32 = int32(nrd)
+		for k := 0; k < nrd; k++ {
+			s.Go(fmt.Sprintf("R%d%s", i, []string{"", "b"}[k]), guard("Read", func() {
+				buf := make([]byte, 64)
+				conns[i].Read(buf)
+				if atomic.AddInt32(&left, -1) == 0 {
+					atomic.StoreInt32(&readRet[i], 1) // every reader of this connection has returned
+				}
+			}))
+		}
 	}
 	var dwg sync.WaitGroup
 	// a task that the schedule never ran is released when the scheduler stops and runs to its end on its own; the late
@@ -631,7 +643,7 @@ func closeNoPanic(c interface{ Close() error }) (msg string) {
 
 func genScen(rng *rand.Rand) *scen {
 	sc := &scen{Accepted: rng.Intn(4), Unaccepted: rng.Intn(3), Seed: rng.Int63()}
-	defer func() { sc.Overflow = sc.Seed%5 == 0 }()
+	defer func() { sc.Overflow = sc.Seed%5 == 0; sc.TwoReaders = sc.Seed%3 == 1 }()
 	sc.LClose = []int{1, 1, 1, 2, 0}[rng.Intn(5)]
 	for i := 0; i < sc.Accepted; i++ {
 		sc.CClose = append(sc.CClose, []int{1, 1, 2, 0}[rng.Intn(4)])
